@@ -33,9 +33,11 @@ IncsL == IF Tier = "quick" THEN {ROne, Q(1,2), I(2)} ELSE {RZero, ROne, Q(1,2), 
 QuickShells == { [model |-> m, m1 |-> 3, m2 |-> 1, n2 |-> 1] :
                     m \in {"clpt_donnell_bc1", "clpt_donnell_bc2", "clpt_donnell_bc3", "clpt_donnell_bc4", "fsdt_donnell_bc1"} }
                \cup { [model |-> m, m1 |-> 2, m2 |-> 2, n2 |-> 2] : m \in {"fsdt_donnell_bc4"} }
-FullShells == { [model |-> m, m1 |-> s[1], m2 |-> s[2], n2 |-> s[3]] : m \in ModelNames, s \in {<<3,1,1>>, <<2,2,2>>} }
-              \cup { [model |-> m, m1 |-> 4, m2 |-> 2, n2 |-> 3] :
-                       m \in {"clpt_donnell_bc1", "clpt_donnell_bc2", "clpt_donnell_bc3", "clpt_donnell_bc4"} }
+FullShells == { [model |-> m, m1 |-> 3, m2 |-> 1, n2 |-> 1] : m \in ModelNames }
+              \cup { [model |-> m, m1 |-> 2, m2 |-> 2, n2 |-> 2] :
+                       m \in {"clpt_donnell_bc2", "clpt_donnell_bc4", "clpt_sanders_bc2", "clpt_sanders_bc3",
+                              "iso_clpt_donnell_bc2", "fsdt_donnell_bc4"} }
+              \cup { [model |-> m, m1 |-> 4, m2 |-> 2, n2 |-> 3] : m \in {"clpt_donnell_bc1", "clpt_sanders_bc4"} }
 ShellsL == IF Tier = "quick" THEN QuickShells ELSE FullShells
 GeosL == { <<I(4), Q(5,2)>> }                  \* other lengths: seeded direction-B cases of the harness
 AnglesL == IF Tier = "quick" THEN { [s |-> RZero, c |-> ROne], [s |-> Q(3,5), c |-> Q(4,5)] } ELSE Angles
